@@ -44,14 +44,21 @@ RULE = ('pairs of continuous objects of equal parametric dimension 1-3: orders 2
         'direction None / each int / each spelling / invalid; make_splines_compatible alone; small separate streams: '
         'periodic bases placed by a non-dyadic affine map (ghost knots periodic only up to rounding; model comparison '
         'skipped, oracle only), knots of the two objects 2^-35..2^-31 apart around knot_tolerance (incl. two knots of '
-        'one object inside the tolerance window of one knot of the other), and the known defect classes of the called '
+        'one object inside the tolerance window of one knot of the other), surfaces and volumes periodic in each '
+        'direction (the last included) against partners of lower periodicity so that lower_periodic runs 1-3 levels there '
+        '(square / non-square nets in the other directions, rational or not, every direction spelling), and the known defect classes of the called '
         'methods (periodic bases with n < p+k functions, order-1 directions, 1-D curves).  '
         'non-trivial = the call is legal (valid direction).')
 REQUIRED_TAGS = ['kind=identical', 'kind=compatible', 'pardim=1', 'pardim=2', 'pardim=3', 'dir=None', 'dir=int', 'dir=str',
                  'dir=invalid', 'orders-differ', 'orders-equal', 'periodicity-differs', 'both-periodic', 'open-only',
                  'rational-mixed', 'rational-both', 'dimension-differs', 'domains-differ', 'float-reparam',
                  'inserted-into-1', 'inserted-into-2', 'shared-knot-mult-differs', 'nothing-to-insert',
-                 'model-exact-map=exact-same', 'interior-mult>=2', 'defect-stream', 'rounded-periodic-input', 'near-knots']
+                 'model-exact-map=exact-same', 'interior-mult>=2', 'defect-stream', 'rounded-periodic-input', 'near-knots',
+                 'periodic-lowering:dir0', 'periodic-lowering:dir1', 'periodic-lowering:dir2', 'levels:odd', 'levels:even',
+                 'levels=1', 'levels=2', 'levels=3', 'pardim=2:lowering:dir0', 'pardim=2:lowering:dir1',
+                 'pardim=3:lowering:dir0', 'pardim=3:lowering:dir1', 'pardim=3:lowering:dir2',
+                 'volume-w-lowering:odd:square', 'volume-w-lowering:odd:nonsquare', 'volume-w-lowering:even:square',
+                 'lowering:other-net-square', 'lowering:other-net-nonsquare', 'lowering:rational']
 ASSUMPTIONS = ['np.linalg.inv / scipy spsolve inside raise_order are modelled by exact inverses (certificate-checked in the '
                'model); their rounding error is bounded by RTOL times the measured condition number of the collocation matrix',
                'BSplineBasis.reparam divides in floating point: knots are compared to 1e-12, and knots of the two objects that '
@@ -175,6 +182,53 @@ def _ghost_exact(b):
     return all(kn[i + n] == kn[i] + T for i in range(len(kn) - n))
 
 
+def _lowering_specs(rng, quick):
+    """Surfaces and volumes periodic in EACH parametric direction (the last one included) whose partner
+    has a lower periodicity there, so that `lower_periodic` runs 1, 2 or 3 levels in that direction;
+    square and non-square control nets in the other directions, rational or not, every way of naming
+    the direction.  (`lower_periodic` handles the control array axis by axis: a mistake in the axis
+    bookkeeping of one direction is invisible in the others.)"""
+    out = []
+    combos = [(2, 0, -1), (3, 1, 0), (3, 1, -1), (3, 0, -1), (4, 2, -1), (4, 2, 1), (4, 2, 0), (4, 1, 0), (4, 1, -1)]
+    reps = 1 if quick else 4
+    n = 0
+    for rep in range(reps):
+        for pardim in (3, 2):
+            for d in range(pardim):
+                use = combos if (pardim == 3 and d == 2) or not quick else combos[:5]
+                for (p, khi, klo) in use:
+                    n += 1
+                    others = rng.choice([(2, 2), (3, 3), (2, 3), (3, 2)]) if n % 2 else rng.choice([(2, 3), (3, 2), (2, 2)])
+                    b1, b2, oi = [], [], 0
+                    for k in range(pardim):
+                        if k == d:
+                            need = 2 * khi + 2
+                            hi = _basis(p, khi, _interior(rng, p, [], rng.randint(1, 2), need), rng=rng, mode=rng.choice(['unit', 'dyadic']))
+                            p2 = p if rng.random() < 0.7 else rng.randint(max(2, klo + 2), 4)
+                            klo2 = klo if klo <= p2 - 2 else p2 - 2
+                            lo = _basis(p2, klo2, _interior(rng, p2, [u for u, _ in []], rng.randint(0, 2), 2 * klo2 + 2 if klo2 >= 0 else 0),
+                                        rng=rng, mode=rng.choice(['unit', 'dyadic']))
+                            if n % 3 == 0:
+                                hi, lo = lo, hi
+                            b1.append(hi)
+                            b2.append(lo)
+                        else:
+                            nf = others[oi % 2]
+                            oi += 1
+                            # open order-2 bases with nf functions (nf - 2 interior knots), different nets allowed
+                            ints = [(POOL[2 * j + 1], 1) for j in range(nf - 2)]
+                            b1.append(_basis(2, -1, ints, rng=rng, mode='dyadic'))
+                            ints2 = [(POOL[2 * j + 1], 1) for j in range(rng.choice([nf, 2, 3]) - 2)]
+                            b2.append(_basis(2, -1, ints2, rng=rng, mode='unit'))
+                    rat = rng.choice([(False, False), (True, False), (False, True)])
+                    dim = 3 if pardim == 3 else rng.choice([2, 3])
+                    o1 = _obj(rng, b1, dim, rat[0])
+                    o2 = _obj(rng, b2, dim, rat[1])
+                    direction = [None, d, SPELL[d][1], SPELL[d][2]][n % 4]
+                    out.append({'kind': 'identical', 'o1': o1, 'o2': o2, 'direction': direction, 'stream': 'lowering'})
+    return out
+
+
 def _rounded_periodic_specs(rng, quick):
     """Periodic bases placed by a non-dyadic affine map (ghost knots periodic only up to rounding)
     against open / periodic partners.  Model comparison is skipped for these (see `compare`)."""
@@ -290,6 +344,7 @@ def generate(rng, tier):
         o2 = {'bases': [{'order': b['order'], 'knots': [4.0 * t - 3.0 for t in b['knots']], 'periodic': b['periodic']} for b in o1['bases']],
               'cps': o1['cps'], 'rational': o1['rational']}
         specs.append({'kind': 'identical', 'o1': o1, 'o2': o2, 'direction': None})
+    specs += _lowering_specs(rng, quick)
     specs += _rounded_periodic_specs(rng, quick)
     specs += _near_knot_specs(rng, quick)
     specs += _defect_specs(rng, quick)
@@ -754,6 +809,19 @@ def tags(s, res):
         out.append('orders-differ' if b1['order'] != b2['order'] else 'orders-equal')
         if b1['periodic'] != b2['periodic']:
             out.append('periodicity-differs')
+            lev = abs(b1['periodic'] - b2['periodic'])
+            out.append('periodic-lowering:dir%d' % k)
+            out.append('levels:odd' if lev % 2 else 'levels:even')
+            out.append('levels=%d' % lev)
+            if pd >= 2:
+                hi_obj = o1 if b1['periodic'] > b2['periodic'] else o2
+                shape = [gen.basis_info(bb)['n'] for j, bb in enumerate(hi_obj['bases']) if j != k]
+                out.append('pardim=%d:lowering:dir%d' % (pd, k))
+                out.append('lowering:other-net-%s' % ('square' if len(set(shape)) == 1 else 'nonsquare'))
+                if pd == 3 and k == 2:
+                    out.append('volume-w-lowering:%s:%s' % ('odd' if lev % 2 else 'even', 'square' if len(set(shape)) == 1 else 'nonsquare'))
+                if hi_obj['rational']:
+                    out.append('lowering:rational')
             if min(b1['periodic'], b2['periodic']) >= 0:
                 out.append('periodicity-differs-both-periodic')
         if b1['periodic'] >= 0 and b2['periodic'] >= 0:
